@@ -18,6 +18,7 @@ import (
 	"os"
 
 	"github.com/cloudflare/circl/oprf"
+	"github.com/cloudflare/pat-go/tokens"
 	"github.com/cloudflare/pat-go/tokens/type3"
 	"github.com/cloudflare/pat-go/tokens/type5"
 
@@ -58,6 +59,17 @@ var rsaKeys = []int{0, 1, 2}
 
 type fin func(resp []byte) (tokens [][]byte, err error)
 
+// wipe plays the caller that scrubs what it was handed once it has serialised it: the token
+// returned by a finalization belongs to the caller, so overwriting it must not reach the request
+// state (a later finalization on that state must still judge and build tokens from its own data).
+func wipe(t tokens.Token) {
+	for _, b := range [][]byte{t.Nonce, t.Context, t.KeyID, t.Authenticator} {
+		for i := range b {
+			b[i] = 0
+		}
+	}
+}
+
 // setup builds the state of request ReqI under KeyA and the honest response of the
 // issuer holding KeyB to request ReqJ (created under KeyA as well, so that only the
 // evaluating key differs), then returns the finalizer, that response and the
@@ -87,7 +99,9 @@ func setup(c Case) (finalize fin, resp []byte, verify func(tokens [][]byte) erro
 			if err != nil {
 				return nil, err
 			}
-			return [][]byte{t.Marshal()}, nil
+			m := t.Marshal()
+			wipe(t)
+			return [][]byte{m}, nil
 		}
 		verify = func(toks [][]byte) error {
 			if len(toks) != 1 {
@@ -125,7 +139,9 @@ func setup(c Case) (finalize fin, resp []byte, verify func(tokens [][]byte) erro
 			if err != nil {
 				return nil, err
 			}
-			return [][]byte{t.Marshal()}, nil
+			m := t.Marshal()
+			wipe(t)
+			return [][]byte{m}, nil
 		}
 		verify = func(toks [][]byte) error {
 			if len(toks) != 1 {
@@ -178,7 +194,9 @@ func setup(c Case) (finalize fin, resp []byte, verify func(tokens [][]byte) erro
 			if err != nil {
 				return nil, err
 			}
-			return [][]byte{t.Marshal()}, nil
+			m := t.Marshal()
+			wipe(t)
+			return [][]byte{m}, nil
 		}
 		verify = func(toks [][]byte) error {
 			if len(toks) != 1 {
@@ -231,6 +249,9 @@ func setup(c Case) (finalize fin, resp []byte, verify func(tokens [][]byte) erro
 			var out [][]byte
 			for _, t := range ts {
 				out = append(out, t.Marshal())
+			}
+			for _, t := range ts {
+				wipe(t)
 			}
 			return out, nil
 		}
@@ -331,7 +352,12 @@ func run(c Case) (string, *mc.Viol) {
 	}
 	if verr := verify(toks); verr != nil {
 		what := map[string]string{"none": "a foreign response", "bit": "a bit-corrupted response", "trunc": "a truncated response", "ext": "an extended response", "elems": "a response with rearranged elements", "reeval": "a response to a rearranged request"}[c.Mut]
-		if c.KeyA != c.KeyB {
+		if honest {
+			what = "its own honest response"
+			if c.After {
+				what += " (second finalization on the state, after the caller scrubbed the tokens of the first)"
+			}
+		} else if c.KeyA != c.KeyB {
 			what += " computed under another issuer key"
 		} else if c.ReqI != c.ReqJ {
 			what += " for another request"
@@ -412,6 +438,9 @@ func main() {
 				for e := 0; e < 3; e++ {
 					cases = append(cases, Case{T: t, KeyA: a, KeyB: a, ReqI: i, ReqJ: i, Mut: "ext", Arg: e, N: n})
 				}
+				// the honest response finalized a second time by the same state, after the caller has
+				// scrubbed the tokens of the first call
+				cases = append(cases, Case{T: t, KeyA: a, KeyB: a, ReqI: i, ReqJ: i, Mut: "none", N: n, After: true})
 				if a == 0 && i == 0 {
 					// the same corruptions offered to a state that has just finalized its honest response
 					for bit := 0; bit < len(resp)*8; bit += 5 {
